@@ -130,3 +130,89 @@ def bounded_checks(tier, seed):
     return [{"check": "file_trees", "tool": "generated file trees over two search paths; CPython's path-finder rules + pkgutil as oracle; os.walk / iterdir order permuted (asc, desc, shuffled); request by name and by path",
              "bound": f"7x7 top-level layouts with fixed inner trees + {n_random} random layouts (11 inner entries incl. stubs, sub-packages, __pycache__, nested namespace dirs, data files) x 3 listing orders",
              "cases": d["cases"], "failing": len(d["bad"]), "wall_s": round(time.time() - t0, 1), "class_match": True, "violations": d["bad"]}]
+
+
+PARENT = z3.Function("PATH_PARENT", IntS, IntS)
+STEM = z3.Function("PATH_STEM", IntS, StrS)
+RELTO = z3.Function("PATH_RELATIVE_TO", IntS, IntS, IntS)
+NPARTS = z3.Function("PATH_NPARTS", IntS, IntS)
+PART = z3.Function("PATH_PART", IntS, IntS, StrS)
+WITHNAME = z3.Function("PATH_WITH_NAME", IntS, StrS, IntS)
+ITER = "_griffe.finder:ModuleFinder.iter_submodules"
+
+
+def install_relpaths(P):
+    FS.install(P)
+    P.attr_hooks[("pathlib.Path", "stem")] = lambda P_, o: SStr(STEM(o.ident))
+    P.attr_hooks[("pathlib.Path", "parent")] = lambda P_, o: FS.mk(PARENT(o.ident))
+
+    def parts(P_, o):
+        n = NPARTS(o.ident)
+        P_.assume(n >= 1)
+        return SSeq(SInt(n), lambda i, o=o: SStr(PART(o.ident, zint(i))), kind="tuple", tag="parts")
+    P.attr_hooks[("pathlib.Path", "parts")] = parts
+    P.attr_hooks[("pathlib.Path", "relative_to")] = lambda P_, o: BoundMethod(o, lambda P2, s, a, k: FS.mk(RELTO(o.ident, a[0].ident)))
+    P.attr_hooks[("pathlib.Path", "with_name")] = lambda P_, o: BoundMethod(o, lambda P2, s, a, k: FS.mk(WITHNAME(o.ident, zstr(a[0]))))
+
+
+@contract("C14", "iter_submodules.per_file", [ITER], floor=5, replay="replay_file_trees", split=16)
+def c_iter_submodules(P):
+    """One generic module file of a package directory, from an arbitrary set of already-claimed sub-package directories: a file under a claimed directory is
+    skipped; the package's own __init__ yields nothing; a sub-package __init__ yields the sub-package (named by its directory parts) and claims that directory
+    for later search paths; a .py file yields its dotted parts without suffix, any other module file its parts with the name cut at the first dot; exactly
+    the file itself is reported; the set consulted for skipping is the one handed in -- it is not changed by the pass itself."""
+    install_relpaths(P)
+    exts = [".py", ".pyc", ".pyo", ".pyd", ".pyi", ".so"]
+    finder = SObj("ModuleFinder", {"accepted_py_module_extensions": exts, "extensions_set": set(exts)}, ident=z3.Int("finder_id"), frozen=True)
+    pkg = FS.mk(z3.Int("package_path"))
+    files = sym_seq(P, "module_files", lambda i: FS.mk(z3.Function("MODULE_FILE", IntS, IntS)(zint(i))))
+    P.opaque_hooks["_griffe.finder:ModuleFinder._filter_py_modules"] = lambda P_, a, k: files
+    from pyvc.models import SymSet
+    SEEN_HAS = z3.Function("ALREADY_CLAIMED", IntS, BoolS)
+    seen_none = z3.Bool("seen_is_none")
+    nseen = P.fresh_int("n_claimed")
+    P.assume(nseen.z >= 0)
+    claimed = SSeq(nseen, lambda i: FS.mk(z3.Function("CLAIMED_DIR", IntS, IntS)(zint(i))), tag="claimed", memfn=lambda P2, item: SEEN_HAS(item.ident))
+    P.assume(z3.Implies(nseen.z == 0, z3.ForAll([z3.Int("d_")], z3.Not(SEEN_HAS(z3.Int("d_"))))))
+    seen = None if P.branch(seen_none) else SymSet(items=[], parts=[claimed])
+    yielded = []
+    sizes = []
+
+    def inv(P_, L, pre):
+        sk = L["skip"] if L.has("skip") else None
+        sizes.append(len(sk.items) if isinstance(sk, SymSet) else None)
+        return z3.BoolVal(True)
+
+    def post_body(P_, before, after):
+        sub = after["subpath"]
+        rel = RELTO(sub.ident, after["path"].ident)
+        sk = after["skip"]
+        in_skip = z3.And(z3.Not(seen_none), SEEN_HAS(PARENT(rel)))
+        ys = list(P_.frame.yields or [])
+        items = [y[1] for y in ys if y[0] == "item"]
+        is_py = FS.SUFFIX(rel) == z3.StringVal(".py")
+        stem = STEM(rel)
+        cut = models.ufn("split1_2e_head", StrS, StrS)(stem)
+        is_init = z3.If(is_py, stem == z3.StringVal("__init__"), z3.If(z3.Contains(stem, z3.StringVal(".")), cut == z3.StringVal("__init__"), stem == z3.StringVal("__init__")))
+        top_init = z3.And(is_init, NPARTS(rel) == 1)
+        P_.prove("a_file_under_a_claimed_directory_or_the_own_init_yields_nothing", z3.BoolVal(len(items) == 0) == z3.Or(in_skip, top_init), n=len(items))
+        P_.prove("at_most_one_module_per_file", len(items) <= 1)
+        if isinstance(sk, SymSet) and len(sizes) >= 2 and sizes[1] is not None:
+            P_.prove("the_skip_set_of_the_pass_is_not_changed_by_the_pass", len(sk.items) == sizes[1], grew=len(sk.items) - sizes[1])
+        if len(items) == 1:
+            parts, path_ = items[0]
+            P_.prove("the_file_itself_is_reported", path_ is sub)
+            claimed_now = [x for x in (seen.items if isinstance(seen, SymSet) else [])]
+            P_.prove("only_a_sub_package_init_claims_its_directory", z3.BoolVal(len(claimed_now) == 1) == z3.And(is_init, z3.Not(seen_none)) if seen is not None else z3.BoolVal(True))
+            if claimed_now:
+                P_.prove("the_claimed_directory_is_the_sub_package", claimed_now[0].ident.eq(PARENT(rel)))
+        P_.frame.yields.clear() if P_.frame.yields else None
+    P.loop_specs[(ITER, 1)] = dict(mode="inv", name="files", inv=inv, post_body=post_body,
+                                   hints={"seen": lambda P_, nm: seen, "subpath": lambda P_, nm: None, "rel_subpath": lambda P_, nm: None, "py_file": lambda P_, nm: P_.fresh_bool(nm), "stem": lambda P_, nm: P_.fresh_str(nm)})
+    P.assume(STEM(pkg.ident) != z3.StringVal("__init__"))
+    P.assume(FS.SUFFIX(pkg.ident) == z3.StringVal(""))
+    kind, res = outcome(P, lambda: call(P, ITER, finder, pkg, seen))
+    if kind == "raise":
+        P.prove("never_raises", False, exc=P.resolve_cls(res))
+        return
+    P.cover("iter_submodules")
